@@ -503,6 +503,65 @@ def make_machine(tier, on_history):
     return GroupHistory
 
 
+def _subset_cases(tier):
+    fams = {
+        "str-prefix": (["g1", "g2"], ["g1", "g2", "g10", "g11", "g12", "g2x"]),
+        "str-wide-names": (["g10", "g1"], ["g1", "g10", "g2", "g100"]),
+        "int-vs-float": ([1, 2], [1.0, 2.0, 1.5, 2.5, 2.25]),
+        "int32-vs-int64": (np.asarray([5, 7], dtype=np.int32).tolist(), [5, 7, 5 + 2**32, 7 + 2**32]),
+        "all-listed": (["g12", "g1", "g2", "g10", "g11"], ["g1", "g2", "g10", "g11", "g12"]),
+    }
+    for fam, (names, labels) in fams.items():
+        for k, (sc, ec) in enumerate(CONFIGS):
+            for held in ("array", "list"):
+                yield dict(fam=fam, names=names, labels=labels, sc=sc, ec=ec, k=k, held=held)
+
+
+def check_name_subset(case):
+    """group_names listing only some of the labels present, held in a narrower dtype than the labels
+    (round 10, c12-s): every score still carries the label it was given, and indexing / group matrices of a
+    listed group cover exactly the scores with that label - not those of an unlisted look-alike label."""
+    from score_analysis import GroupScores
+
+    names, labels, k = case["names"], case["labels"], case["k"]
+    L = len(labels)
+    pos = [0.5 * ((7 * i + k) % 29) + 0.25 for i in range(17)]  # distinct values
+    neg = [0.5 * ((11 * i + 3 * k) % 31) for i in range(19)]
+    pgl = [labels[(3 * i + k) % L] for i in range(len(pos))]
+    ngl = [labels[(5 * i + 1) % L] for i in range(len(neg))]
+    ndt = np.int32 if case["fam"] == "int32-vs-int64" else None
+    gn = np.asarray(names, dtype=ndt) if case["held"] == "array" else list(names)
+    pg, ng = (np.asarray(pgl), np.asarray(ngl)) if case["held"] == "array" else (list(pgl), list(ngl))
+    g = GroupScores(np.asarray(pos), np.asarray(neg), pos_groups=pg, neg_groups=ng, group_names=gn,
+                    score_class=case["sc"], equal_class=case["ec"])
+    ctx = f"group_names={names} labels present={labels} config={case['sc']}/{case['ec']}"
+    want = Counter()
+    for s_, lab in zip(pos, pgl):
+        want[(float(s_), _norm(lab), "pos")] += 1
+    for s_, lab in zip(neg, ngl):
+        want[(float(s_), _norm(lab), "neg")] += 1
+    got = triples(g)
+    require(got == want, "grp:labels-detached",
+            lambda: f"{ctx}: (score, label, class) triples of the object differ from the input: "
+                    f"missing {list((want - got).items())[:3]} extra {list((got - want).items())[:3]}")
+    require([_norm(_py(x)) for x in g.groups] == [_norm(x) for x in names], "grp:names-order", f"{ctx}: groups={g.groups!r}")
+    thr = [-1.0, 2.0, 5.25, 7.0, 9.5, 20.0]
+    gcm = np.asarray(g.group_cm(np.asarray(thr)).matrix)
+    for j, name in enumerate(names):
+        p_ = sorted(s_ for s_, lab in zip(pos, pgl) if lab == name)
+        n_ = sorted(s_ for s_, lab in zip(neg, ngl) if lab == name)
+        sub = g[name]
+        require(sorted(np.asarray(sub.pos).tolist()) == p_ and sorted(np.asarray(sub.neg).tolist()) == n_,
+                "grp:getitem", lambda: f"{ctx}: obj[{name!r}] has pos={np.asarray(sub.pos).tolist()} neg="
+                                       f"{np.asarray(sub.neg).tolist()} but the scores labelled {name!r} are pos={p_} neg={n_}")
+        for i, t in enumerate(thr):
+            ref = ref_cm(p_, n_, t, case["sc"], case["ec"], 0, 0)
+            gg = tuple(int(x) for x in gcm[j, i].reshape(-1))
+            require(gg == ref, "grp:group-cm", lambda: f"{ctx}: group_cm({t})[{name!r}] = {gg}, counting the scores "
+                                                       f"labelled {name!r} gives {ref}")
+    return dict(nontrivial=case["fam"] != "all-listed", labels=[f"fam:{case['fam']}", f"held:{case['held']}"])
+
+
 PROP = Prop(
     id="C12",
     rule=("Hypothesis: 1-5 groups named by strings (incl. '_', unicode, spaces) or ints, group "
@@ -524,6 +583,8 @@ PROP = Prop(
                quick_shards=3, min_nontrivial=50, doc="label attachment, partition, groupwise"),
         Clause("sampling", check_sampling, strategy=_sample_cases(), quick=400, thorough=8000,
                quick_shards=3, min_nontrivial=100, doc="labels stay attached through resampling"),
+        Clause("name_subset", check_name_subset, kind="enum", cases=_subset_cases, quick_shards=4, shards=4,
+               min_nontrivial=16, doc="group_names listing a subset of the labels, in a narrower dtype than the labels"),
         Clause("history", check_history, kind="machine", machine=make_machine, quick=80,
                thorough=1600, quick_shards=3, shards=8, steps=10, min_nontrivial=20,
                doc="swap / sample / getitem / group_cm histories"),
@@ -532,4 +593,4 @@ PROP = Prop(
                  "lacking a class turns int labels into floats and widens string dtypes"],
 )
 
-RULE_EXTRA = ('uint8 scores; explicit, non-alphabetical group_names incl. a name without members; a second object over the same caller arrays; sources of 90-130 scores per class. A groupwise metric that is an int for some groups and x.5 for others; the run-time switch re-assigned around the sampling clause.')
+RULE_EXTRA = ('clause name_subset: group_names that list only some of the labels present and are held in a narrower dtype (shorter strings, int vs float, int32 vs int64) with unlisted look-alike labels - labels stay as given, indexing and group matrices of a listed group cover exactly its scores; uint8 scores; explicit, non-alphabetical group_names incl. a name without members; a second object over the same caller arrays; sources of 90-130 scores per class. A groupwise metric that is an int for some groups and x.5 for others; the run-time switch re-assigned around the sampling clause.')
